@@ -32,7 +32,6 @@ var mutOps = []string{
 // hostileAffixes are put at the start / end of the content of a quoted string or bare value.
 var hostileAffixes = []string{"npm:", "file:", "git+", "@", "../", "-r ", "workspace:", "link:", "https://", "github:", "/", ":", "v", "=", "#", "\\", " ", "a@", "@a/", "+", "-", ".", "!", "~", "^", "*", "%", "[", "{", "<", "&"}
 
-
 var zipOps = []string{"zip", "zipname", "zipdup", "zipnest", "zipdel"}
 
 // hostileScalars replace a scalar of the document.
